@@ -1238,6 +1238,10 @@ class Container:
 
         if total_quantity is not None:
             total_quantity, total_quantity_unit = Unit.parse_quantity(total_quantity)
+            if total_quantity_unit == 'U' and isinstance(original_solvent, Container) and any(
+                    substance.is_enzyme() and amount > 0 for substance, amount in original_solvent.contents.items()):
+                # (the solvent portion is taken to carry no activity)
+                raise ValueError("Solution is impossible to create. (The solvent container holds an enzyme.)")
             a[index] = numpy.array(
                 list(convert_one(substance, total_quantity_unit) for substance in solute + [solvent]))
             b[index] = total_quantity
